@@ -38,6 +38,8 @@ def run(C, R):
         CG = C.cg(cfg)
         roles = C.roles(cfg)
         R.configs.append(cfg)
+        from common import constructor_state
+        constructor_state(R, C.engine(cfg), C.facts(cfg), STATE, {'waiters': 'empty-queue', 'clock': ('ref', (('P', 'clock'),))}, 'C15.R0')
         from common import wrapper_discipline
         R.floor('C15.W wrapper-paths[%s]' % cfg, wrapper_discipline(C, R, cfg, ['timer::timer::TimerState'], 'C15.W'), 2)
         F.adt(STATE)
